@@ -21,10 +21,20 @@ NB == 64
 (* expected provenance pairs of a chain <<f, c1, .., c0>> *)
 ExpectedOrigin(ch) == [i \in 1..(Len(ch) - 1) |-> <<ch[1], ch[i + 1]>>]
 
-PointVerdict(D, T, X, ch, k) ==
+(* per-trace analysis shared by the clauses: chains, skip flags and T4 owners of every probe point *)
+Analysis(r) ==
+  LET D == r.deck  T == r.file  X == TLCEval(Ctx(T))
+      n == Len(D.pts)
+      chains == TLCEval([k \in 1..n |-> Chain(D, D.pts[k])])
+      skip == TLCEval([k \in 1..n |-> IsSkip(chains[k]) \/ OnEmitted(X, k)])
+      own == TLCEval([k \in 1..n |-> IF skip[k] \/ IsBadDeck(chains[k]) THEN {} ELSE Owners(X, k)])
+  IN [n |-> n, chains |-> chains, skip |-> skip, own |-> own]
+
+PointVerdict(D, T, A, k) ==
+  LET ch == A.chains[k] IN
   IF IsBadDeck(ch) THEN "baddeck"
-  ELSE IF IsSkip(ch) \/ OnEmitted(X, k) THEN "skip"
-  ELSE LET own == Owners(X, k) IN
+  ELSE IF A.skip[k] THEN "skip"
+  ELSE LET own == A.own[k] IN
        IF ~Live(D, ch) THEN (IF own = {} THEN "ok" ELSE "spurious")
        ELSE IF own = {} THEN "unowned"
        ELSE IF Cardinality(own) > 1 THEN "multi"
@@ -34,16 +44,15 @@ PointVerdict(D, T, X, ch, k) ==
                THEN (IF id = ch[1] THEN "ok" ELSE "wrongid")
                ELSE (IF v.origin = ExpectedOrigin(ch) THEN "ok" ELSE "wrongprov")
 
-OwnerVerdict(r) ==
-  LET D == r.deck  T == r.file  X == TLCEval(Ctx(T))
-      chains == TLCEval([k \in 1..Len(D.pts) |-> Chain(D, D.pts[k])])
-      pv == TLCEval([k \in 1..Len(D.pts) |-> PointVerdict(D, T, X, chains[k], k)])
-      kinds == { pv[k] : k \in 1..Len(D.pts) } \ {"ok", "skip"}
-      firstOf(kind) == CHOOSE k \in 1..Len(D.pts) : pv[k] = kind /\ \A j \in 1..(k - 1) : pv[j] # kind
+OwnerVerdict(r, A) ==
+  LET D == r.deck  T == r.file
+      pv == TLCEval([k \in 1..A.n |-> PointVerdict(D, T, A, k)])
+      kinds == { pv[k] : k \in 1..A.n } \ {"ok", "skip"}
+      firstOf(kind) == CHOOSE k \in 1..A.n : pv[k] = kind /\ \A j \in 1..(k - 1) : pv[j] # kind
   IN [bad |-> { <<kind, firstOf(kind)>> : kind \in kinds },
-      nowners |-> Cardinality({ chains[k] : k \in { j \in 1..Len(D.pts) : pv[j] = "ok" /\ Live(D, chains[j]) } }),
-      nchecked |-> Cardinality({ k \in 1..Len(D.pts) : pv[k] # "skip" }),
-      ndeep |-> Cardinality({ k \in 1..Len(D.pts) : pv[k] = "ok" /\ Len(chains[k]) > 1 })]
+      nowners |-> Cardinality({ A.chains[k] : k \in { j \in 1..A.n : pv[j] = "ok" /\ Live(D, A.chains[j]) } }),
+      nchecked |-> Cardinality({ k \in 1..A.n : pv[k] # "skip" }),
+      ndeep |-> Cardinality({ k \in 1..A.n : pv[k] = "ok" /\ Len(A.chains[k]) > 1 })]
 
 ZeroImpVerdict(r) ==
   LET D == r.deck  T == r.file
@@ -86,17 +95,51 @@ WitnessVerdict(r) ==
       bad == { s \in cands : \E w \in witOf(s.n) : ~Proportional(w, MainQuad(D, s)) }
   IN { <<"locus", s.n>> : s \in bad }
 
+(***************************************************************************)
+(* C09 / C13: composition of the volume that owns a point.  The adapter    *)
+(* gives, for every composition name met in GEOMCOMP or COMPOSITION, the   *)
+(* material number and the density class encoded in the name (T.cinfo);    *)
+(* a density class is a numeric value, whatever its spelling (D.cells[i].  *)
+(* rho is the class of the cell's density, 0 for void).                    *)
+(***************************************************************************)
+NameOfVol(T, id) ==
+  LET rows == { r \in 1..Len(T.geomcomp.rows) : \E x \in 1..Len(T.geomcomp.rows[r].ids) : T.geomcomp.rows[r].ids[x] = id }
+  IN IF rows = {} THEN "?" ELSE T.geomcomp.rows[CHOOSE r \in rows : TRUE].name
+CInfo(T, name) ==
+  LET ix == { i \in 1..Len(T.cinfo) : T.cinfo[i].name = name }
+  IN IF ix = {} THEN [name |-> name, mat |-> -1, rho |-> -1, defined |-> FALSE] ELSE T.cinfo[CHOOSE i \in ix : TRUE]
+CompoVerdict(r, A) ==
+  LET D == r.deck  T == r.file
+      chains == A.chains
+      pts == { k \in 1..A.n : ~A.skip[k] /\ Live(D, chains[k]) /\ Cardinality(A.own[k]) = 1 }
+      volOf == [k \in pts |-> CHOOSE id \in A.own[k] : TRUE]
+      cellAt(k) == CellOf(D, chains[k][1])
+      info == TLCEval([k \in pts |-> CInfo(T, NameOfVol(T, volOf[k]))])
+      bad(k) == LET c == cellAt(k)  i == info[k] IN
+                IF c.mat = 0 THEN (IF i.name = "m0" THEN "ok" ELSE "void_not_m0")
+                ELSE IF ~i.defined THEN "composition_undefined"
+                ELSE IF i.mat # c.mat THEN "wrong_material"
+                ELSE IF i.rho # c.rho THEN "wrong_density"
+                ELSE "ok"
+      kinds == { bad(k) : k \in pts } \ {"ok"}
+      split == \E k1, k2 \in pts : cellAt(k1).mat = cellAt(k2).mat /\ cellAt(k1).rho = cellAt(k2).rho
+                                      /\ cellAt(k1).mat # 0 /\ info[k1].name # info[k2].name
+  IN { <<kd, CHOOSE k \in pts : bad(k) = kd>> : kd \in kinds }
+     \cup (IF split THEN {<<"same_density_two_compositions", 0>>} ELSE {})
+
 Clauses == IF "CLAUSES" \in DOMAIN IOEnv THEN IOEnv.CLAUSES ELSE "owner,valid"
 HasClause(c) == \E i \in 1..(Len(Clauses) - Len(c) + 1) : SubSeq(Clauses, i, i + Len(c) - 1) = c
 
 Verdict(r) ==
   IF r.result # "ok" THEN [tid |-> r.tid, bad |-> {<<"crash", 0>>}, nowners |-> 0, nchecked |-> 0, ndeep |-> 0]
-  ELSE LET ov == IF HasClause("owner") THEN OwnerVerdict(r)
+  ELSE LET A == IF HasClause("owner") \/ HasClause("compo") THEN Analysis(r) ELSE [n |-> 0]
+           ov == IF HasClause("owner") THEN OwnerVerdict(r, A)
                  ELSE [bad |-> {}, nowners |-> 0, nchecked |-> 0, ndeep |-> 0]
            fv == IF HasClause("valid") THEN { <<d, 0>> : d \in FileDefects(r.file) } ELSE {}
            zv == IF HasClause("zeroimp") THEN ZeroImpVerdict(r) ELSE {}
            wv == IF HasClause("witness") THEN WitnessVerdict(r) ELSE {}
-       IN [tid |-> r.tid, bad |-> ov.bad \cup fv \cup zv \cup wv, nowners |-> ov.nowners,
+           cv == IF HasClause("compo") THEN CompoVerdict(r, A) ELSE {}
+       IN [tid |-> r.tid, bad |-> ov.bad \cup fv \cup zv \cup wv \cup cv, nowners |-> ov.nowners,
            nchecked |-> ov.nchecked, ndeep |-> ov.ndeep]
 
 BlockVerdict(b) == LET tr == BlockTraces(b)
